@@ -809,6 +809,85 @@ def _postdominates_entry(fn, node):
 
 
 
+
+def rule_lazy_caches(ctx):
+    """Cache invalidation (table 'caches'): every public method of the class that writes an input the
+    cache content depends on - outside ensure functions - erases the cache index on every path
+    (an erase call on that cache field post-dominates the method's entry, directly or inside a
+    callee on `this` that is itself always called)."""
+    table = engine.load_table("lazy.json")
+    fx = ctx.facts
+    n = 0
+    for cname, caches in table.get("caches", {}).items():
+        spec = table["classes"][cname]
+        model = ClassModel(fx, cname, spec)
+        interp = Interp(model)
+        sname = short(model.name)
+        allv = model.all_valuations()
+        inv_vals = [v for v in allv if all(p.holds1(model.as_dict(v)) for p in model.invariant)]
+        nontrivial_valid = [p for p in set(model.valid.values())
+                            if not all(p.holds1(model.as_dict(v)) for v in inv_vals)]
+        ensure = set()
+        for g in model.methods:
+            if g.body is None or g.rec.get("ctor") or g.rec.get("dtor"):
+                continue
+            exits = set()
+            for v in inv_vals:
+                ex, _ = interp.run(g, v)
+                exits |= ex
+            if exits and any(all(p.holds1(model.as_dict(x)) for x in exits) for p in nontrivial_valid):
+                ensure.add(g.key)
+        for cfield, cs in caches.items():
+            if cfield.startswith("_"):
+                continue
+            if cfield not in model.fields:
+                raise AnalysisBroken("lazy table: cache field %s not found in %s" % (cfield, cname))
+            erase_name = cs["erase"].rsplit("::", 1)[-1]
+
+            def erases_always(fn, seen=None):
+                seen = seen or set()
+                if fn.key in seen or fn.body is None:
+                    return False
+                seen.add(fn.key)
+                for c in fn.calls():
+                    if c.get("k") != "CXXMemberCallExpr":
+                        continue
+                    obj = F.call_object(c)
+                    if obj is None:
+                        continue
+                    cal = strip_targs(c.get("callee") or "")
+                    tf = this_field(obj)
+                    if tf and tf[1] == cfield and cal.rsplit("::", 1)[-1] == erase_name:
+                        if _postdominates_entry(fn, c):
+                            return True
+                    if obj.get("k") == "CXXThisExpr" and cal and _postdominates_entry(fn, c):
+                        callee = model.resolve(c.get("calleeKey"), cal, _is_qualified(c))
+                        if callee is not None and erases_always(callee, seen):
+                            return True
+                return False
+
+            for m in entry_methods(model):
+                if m.key in ensure:
+                    continue
+                wr = set()
+                for g in _closure(model, m, stop=ensure):
+                    if g.key in ensure:
+                        continue
+                    wr |= model.direct_writes(g)
+                hit = sorted(wr & set(cs["depends_on"]))
+                if not hit:
+                    continue
+                ctx.saw(m)
+                msig = "%s(%s)" % (short(strip_targs(m.qn)), ",".join(p["t"] for p in m.params))
+                ok = erases_always(m)
+                n += 1
+                ctx.report(RULE, "CACHE:%s:%s:%s" % (sname, msig, cfield), ok, m.where(), m.short,
+                           "" if ok else "writes %s, which the content of cache '%s' depends on, but does not erase "
+                           "the cache on every path: a later query can be answered from a vector computed for the "
+                           "previous input" % (hit, cfield))
+    ctx.floor(RULE, 4, n, "cache invalidation obligations")
+
+
 def rule_lazy_chain(ctx):
     """Stage chains (table 'chains'): every stage function, entered in a state where the previous
     stage is not established, invokes the previous stage function, and every normal exit leaves the
